@@ -242,7 +242,12 @@ class ParseFunc(_ast_util.NodeVisitor):
     def visit_FunctionDef(self, node):
         self.listener.funcname = node.name
 
-        argnames = [arg_id(arg) for arg in node.args.args]
+        # positional-only parameters are kept (as ordinary positional ones:
+        # the generated signature has no "/")
+        argnames = [
+            arg_id(arg)
+            for arg in getattr(node.args, "posonlyargs", []) + node.args.args
+        ]
         if node.args.vararg:
             argnames.append(node.args.vararg.arg)
 
